@@ -318,15 +318,6 @@ func (m *model) follow(e *expect, port []int, host, start string) {
 			e.addErr(st)
 			return
 		}
-		for i := range recs {
-			if recs[i].Target != "" && len(simdoh.NameProblems(recs[i].Target)) > 0 {
-				// the universe holds a name that no message can carry: what the
-				// resolver returns is not asserted, only what it asks (the query
-				// monitor: it must never ask for such a name)
-				e.skip = true
-				return
-			}
-		}
 		var aliases, services []simdoh.RR
 		for i := range recs {
 			if recs[i].Svc == nil {
@@ -435,6 +426,19 @@ func expectForStart(z *simdoh.Zone, in Input, observed string) *expect {
 		e.noQuery = true
 		e.addErr("fail")
 		return e
+	}
+	for _, rrs := range [][]simdoh.RR{z.RRs, z.Poison} {
+		for i := range rrs {
+			if (rrs[i].Target != "" && len(simdoh.NameProblems(rrs[i].Target)) > 0) || len(simdoh.NameProblems(rrs[i].Name)) > 0 {
+				// The universe holds a name that no message can carry: a response
+				// that includes it cannot be decoded, and which responses do is
+				// the upstream's business. What the resolver returns is not
+				// asserted here - only what it asks (the query monitor: it must
+				// never ask for such a name).
+				e.skip = true
+				return e
+			}
+		}
 	}
 	var starts []string
 	if in.effScheme() == "https" {
